@@ -30,6 +30,7 @@ func runC03(r *Run) {
 	r.rule("C03.R6", "EndBlock order: the hold-releasing module precedes the delegation module", 1)
 	r.rule("C03.R7", "pending aggregates move with the record (C01 delta obligations of the exit path)", 4)
 	r.rule("C03.R8", "a pending record modified through an iterator helper is always written back; the share-zeroing after a full slash touches only the undelegatable share (pending amounts survive)", 3)
+	iteratorVisitsAllRule(r, "C03.R8", map[string]bool{"x/delegation/keeper.Keeper.IterateDelegations": true})
 	iteratorWriteBackRule(r, "C03.R8", map[string]bool{"IterateUndelegationsByStakerAndAsset": true, "IterateUndelegationsByOperator": true})
 	shareZeroingRule(r, "C03.R8")
 
